@@ -47,6 +47,24 @@ func mk(n *int) func(int) {
 	return p.finish
 }
 
+type run struct{ out chan int; err error }
+func (r *run) cancel(e error) { r.err = e; close(r.out) }
+func (r *run) fin() int { return <-r.out }
+func captured(work func(func(error))) int {
+	r := &run{out: make(chan int)}
+	go work(func(e error) { r.cancel(e) })
+	go work(r.cancel)
+	return r.fin()
+}
+
+type flight struct{ key string; n *int }
+func (f flight) land() { *f.n += len(f.key) }
+func (f flight) run(fn func()) { defer f.land(); fn() }
+func byValue(key string, n *int, fn func()) {
+	f := flight{key: key, n: n}
+	f.run(fn)
+}
+
 type escaping struct{ x int }
 var sink *escaping
 func leak() { e := &escaping{x: 1}; sink = e; e.x = 2 }
@@ -57,7 +75,7 @@ func TestScalarReplace(t *testing.T) {
 	all := SSAPkgFuncs(pkg.Prog, pkg)
 	isMethodOrCtor := func(f *ssa.Function) bool {
 		switch f.Name() {
-		case "newCall", "run", "result", "finish":
+		case "newCall", "run", "result", "finish", "cancel", "fin", "land":
 			return true
 		}
 		return false
@@ -78,8 +96,8 @@ func TestScalarReplace(t *testing.T) {
 	for _, f := range all {
 		ssa.InlineBoundMethods(f, isMethodOrCtor)
 	}
-	live := map[string]bool{"serve": true, "mk": true, "leak": true}
-	sites := map[*ssa.Function]int{}
+	live := map[string]bool{"serve": true, "mk": true, "leak": true, "captured": true, "byValue": true}
+	sites := map[*ssa.Function][]*ssa.MakeClosure{}
 	var wrappers []*ssa.Function
 	var scan func(f *ssa.Function)
 	seen := map[*ssa.Function]bool{}
@@ -92,7 +110,7 @@ func TestScalarReplace(t *testing.T) {
 			for _, in := range b.Instrs {
 				if mc, ok := in.(*ssa.MakeClosure); ok {
 					k := mc.Fn.(*ssa.Function)
-					sites[k]++
+					sites[k] = append(sites[k], mc)
 					if k.Parent() == nil {
 						wrappers = append(wrappers, k)
 					}
@@ -110,14 +128,45 @@ func TestScalarReplace(t *testing.T) {
 	got := map[string]int{}
 	for _, f := range all {
 		if live[f.Name()] {
+			ssa.ElideStructCopies(f, want, sites)
+		}
+	}
+	for _, f := range all {
+		if live[f.Name()] {
 			got[f.Name()] = ssa.ScalarReplaceStructs(f, want, sites)
 		}
 	}
-	if got["serve"] != 1 || got["mk"] != 1 || got["leak"] != 0 {
-		t.Errorf("structs split: %v, want serve:1 mk:1 leak:0", got)
+	if got["serve"] != 1 || got["mk"] != 1 || got["leak"] != 0 || got["captured"] != 1 || got["byValue"] != 1 {
+		t.Errorf("structs split: %v, want serve:1 mk:1 leak:0 captured:1 byValue:1", got)
 	}
 	var buf bytes.Buffer
-	for _, f := range append(SSAPkgFuncs(pkg.Prog, pkg), wrappers...) {
+	// what is still reachable from the live functions (the inlined originals are dead code)
+	reach := map[*ssa.Function]bool{}
+	var walk func(f *ssa.Function)
+	walk = func(f *ssa.Function) {
+		if f == nil || reach[f] || f.Blocks == nil {
+			return
+		}
+		reach[f] = true
+		for _, b := range f.Blocks {
+			for _, in := range b.Instrs {
+				for _, op := range in.Operands(nil) {
+					if g, ok := (*op).(*ssa.Function); ok {
+						walk(g)
+					}
+				}
+			}
+		}
+	}
+	for _, f := range all {
+		if live[f.Name()] {
+			walk(f)
+		}
+	}
+	for f := range reach {
+		if isMethodOrCtor(f) {
+			continue
+		}
 		if !ssa.SanityCheckFunction(f, &buf) {
 			t.Errorf("%s fails go/ssa's sanity check after the transformation:\n%s", f, buf.String())
 		}
